@@ -372,6 +372,8 @@ send_resp_32(RegP *p, const RPFrame *frame, RPResponse code, const uint32_t pl,
  * really should only happen in regp_recv(). Normal code should use
  * regp_resp_ebusy() and regp_resp_erxoverflow() instead. */
 
+static inline size_t trxbufsize(const RegP *p);
+
 static int
 send_early_response(RegP *p, ByteBuffer *hdrbuf, RPResponse code)
 {
@@ -379,6 +381,14 @@ send_early_response(RegP *p, ByteBuffer *hdrbuf, RPResponse code)
     const int rc = parse_header(&frame, hdrbuf->data, hdrbuf->used);
 
     if (rc >= 0) {
+        if (regp_is_request(&frame) == false) {
+            /* Responses and meta messages are never answered. */
+            return 0;
+        }
+        if (code == RP_RESP_ERXOVERFLOW) {
+            /* This response carries the largest supported message size. */
+            return send_resp_32(p, &frame, code, trxbufsize(p), MSEM_8BIT);
+        }
         return send_resp_0(p, &frame, code, MSEM_8BIT);
     }
 
